@@ -3,10 +3,11 @@ import IceProofs.Sys2C20
 # C20 on `Sys2` — a quiesced exchange stays quiesced
 
 From a quiesced state of an exchange, as long as A does not call `RenominateCandidate` again (and the session goes on:
-no Restart / Close, roles kept, nobody Failed), under every schedule: the state stays quiesced and neither agent's
-selection moves.  This is what makes `Quiesced` the right notion: with no valued message in flight and no valued
-transaction outstanding, `answerOf` cannot select at A and `acceptAt` cannot fire at B; a success response on a pair of B
-that carries an old deferred mark is superseded, or re-selects the selected pair.
+no Restart / Close, roles kept, nobody Failed), under every schedule: the state stays quiesced and an existing
+selection does not move (at B: once a value has been accepted).  This is what makes `Quiesced` the right notion: with
+no valued message in flight and no valued transaction outstanding, a valued answer cannot select at A and `acceptAt`
+cannot fire at B; a success response on a pair of B that carries an old deferred value is superseded; ordinary
+nominations move a selection only where nothing is selected, or (at B) no value has been accepted.
 -/
 namespace IceProofs.C20S
 open IceModel.AgentCore IceModel.Sys2 IceProofs.Sys2Run IceProofs.Agent IceProofs.Sys2C05
@@ -25,42 +26,44 @@ theorem rests_issue {a : Agent} {ev : Ev} (h : rests ev = true) : issueOf a ev =
 theorem rests_of_not_api {ev : Ev} (h : ev.isApi = false) : rests ev = true := by
   cases ev <;> first | rfl | cases h
 
-structure RestInv (nat : List (Nat × Nat)) (sa sb : Option Nat) (xa xb : Option (Nat × Nat)) (h : Hist) (s : Sys) :
+structure RestInv (nat : List (Nat × Nat)) (sa sb lb : Option Nat) (xa xb : Option (Nat × Nat)) (h : Hist) (s : Sys) :
     Prop where
   q : QInv nat h s
   quiet : Quiesced s
-  selA : s.a.selected = sa
-  selB : s.b.selected = sb
+  selA : ∀ id, sa = some id → s.a.selected = some id
+  lastB : s.b.lastNomination = lb
+  selB : lb.isSome = true → ∀ id, sb = some id → s.b.selected = some id
   addrA : ∀ x, xa = some x → selAddrs s.a = some x
-  addrB : ∀ x, xb = some x → selAddrs s.b = some x
+  addrB : lb.isSome = true → ∀ x, xb = some x → selAddrs s.b = some x
 
 theorem valFree_nom {d : Dgram} (h : valFree d = true) {m : Msg} (hm : d.p = .stun m) : m.nom = none := by
   unfold valFree at h
   rw [hm] at h
   simpa using h
 
-theorem selAddrs_keep {ex : Option Nat} {iss : Option (Nat × Nat × Nat)} {a a' : Agent} (hq : NomQ ex iss a a')
-    (hs : a'.selected = a.selected) (x : Nat × Nat) (hx : selAddrs a = some x) : selAddrs a' = some x := by
-  unfold selAddrs at hx ⊢
-  rw [hs]
+/-- an existing selection that does not move keeps its addresses -/
+theorem selAddrs_keep' {ex : Option Nat} {iss : Option (Nat × Nat × Nat)} {a a' : Agent} (hq : NomQ ex iss a a')
+    (hs : ∀ id, a.selected = some id → a'.selected = some id) (x : Nat × Nat) (hx : selAddrs a = some x) :
+    selAddrs a' = some x := by
   cases hsel : a.selected with
-  | none => rw [hsel] at hx; cases hx
-  | some id =>
-    rw [hsel] at hx
-    exact hq.addrs id x hx
+  | none => have := selAddrs_some_selected hx; rw [hsel] at this; cases this
+  | some id => exact selAddrs_keep hq ((hs id hsel).trans hsel.symm) x hx
 
-theorem rest_frame {nat : List (Nat × Nat)} {sa sb : Option Nat} {xa xb : Option (Nat × Nat)} {h : Hist} {s s' : Sys}
-    (r : RestInv nat sa sb xa xb h s) (ha : s'.a = s.a) (hb : s'.b = s.b) (hn : s'.nat = s.nat)
-    (hf : ∀ d ∈ s'.inflight, d ∈ s.inflight) : RestInv nat sa sb xa xb h s' := by
-  refine ⟨qinv_frame r.q ha hb hn hf, ?_, ha ▸ r.selA, hb ▸ r.selB, ha ▸ r.addrA, hb ▸ r.addrB⟩
+theorem rest_frame {nat : List (Nat × Nat)} {sa sb lb : Option Nat} {xa xb : Option (Nat × Nat)} {h : Hist} {s s' : Sys}
+    (r : RestInv nat sa sb lb xa xb h s) (ha : s'.a = s.a) (hb : s'.b = s.b) (hn : s'.nat = s.nat)
+    (hf : ∀ d ∈ s'.inflight, d ∈ s.inflight) : RestInv nat sa sb lb xa xb h s' := by
+  refine ⟨qinv_frame r.q ha hb hn hf, ?_, ha ▸ r.selA, hb ▸ r.lastB, hb ▸ r.selB, ha ▸ r.addrA, hb ▸ r.addrB⟩
   obtain ⟨q1, q2, q3⟩ := r.quiet
   exact ⟨fun d hd => q1 d (hf d hd), by rw [ha]; exact q2, by rw [hb]; exact q3⟩
 
-theorem rest_agentEv {nat : List (Nat × Nat)} {sa sb : Option Nat} {xa xb : Option (Nat × Nat)} {h : Hist} {s : Sys}
-    (r : RestInv nat sa sb xa xb h s) (X : Bool) (ev : Ev) (hk : rests ev = true)
+theorem nk_def {p : Pair} {x : Bool × Bool × Option Nat} (h : nk p = x) : p.deferredNom = x.2.2 := by
+  rw [← h]; rfl
+
+theorem rest_agentEv {nat : List (Nat × Nat)} {sa sb lb : Option Nat} {xa xb : Option (Nat × Nat)} {h : Hist} {s : Sys}
+    (r : RestInv nat sa sb lb xa xb h s) (X : Bool) (ev : Ev) (hk : rests ev = true)
     (hadm : (∀ now la src m, ev ≠ .inbound now la src m) ∨ ∃ d, (DgramOK h d ∧ valFree d = true) ∧ ev = evOf s d)
     (hsess : Session (s.agentEv X ev).1) (hz : ∀ x ∈ (hstep h X (s.agent X) ev).issued, 0 < x.1) :
-    RestInv nat sa sb xa xb (hstep h X (s.agent X) ev) (s.agentEv X ev).1 := by
+    RestInv nat sa sb lb xa xb (hstep h X (s.agent X) ev) (s.agentEv X ev).1 := by
   have hadmQ : (∀ now la src m, ev ≠ .inbound now la src m) ∨ ∃ d, DgramOK h d ∧ ev = evOf s d := by
     rcases hadm with h1 | ⟨d, hd, he⟩
     · exact Or.inl h1
@@ -75,21 +78,18 @@ theorem rest_agentEv {nat : List (Nat × Nat)} {sa sb : Option Nat} {xa xb : Opt
     obtain ⟨hp1, hp2, hp3, hp4⟩ := hpA
     obtain ⟨hq, hsel, hans⟩ := step_frame_ctl s.a ev r.q.invA hs1 (rests_keeps hk) hs5 hp3 hp4
     have hiss : issueOf s.a ev = none := rests_issue hk
-    -- A's selection does not move: an answered transaction carries no value, and a pair is selected
-    have hsame : (step s.a ev).1.selected = s.a.selected := by
+    -- an existing selection of A does not move: an answered transaction carries no value
+    have hsame : ∀ id0, s.a.selected = some id0 → (step s.a ev).1.selected = some id0 := by
+      intro id0 hid0
       rw [hsel]
       cases hao : answerOf s.a ev with
-      | none => rfl
+      | none => exact hid0
       | some y =>
         obtain ⟨pd, id⟩ := y
         simp only []
         have hpn : pd.nom = none := q2 pd (hans pd id hao).1
-        have hsn : s.a.selected.isNone = false := by
-          cases hss : s.a.selected with
-          | none => have := r.q.selA; rw [hss] at this; cases this
-          | some _ => rfl
-        simp [hpn, hsn]
-    refine ⟨q', ⟨?_, ?_, ?_⟩, ?_, ?_, ?_, ?_⟩
+        simp [hpn, hid0]
+    refine ⟨q', ⟨?_, ?_, ?_⟩, ?_, ?_, ?_, ?_, ?_⟩
     · intro d hd
       rw [agentEv_inflight_false] at hd
       rcases List.mem_append.mp hd with hd | hd
@@ -111,11 +111,13 @@ theorem rest_agentEv {nat : List (Nat × Nat)} {sa sb : Option Nat} {xa xb : Opt
       · exact h1
       · rw [hiss] at h2; cases h2
     · rw [agentEv_b_false]; exact q3
-    · rw [agentEv_a_false, hsame]; exact r.selA
+    · intro id0 hid0
+      rw [agentEv_a_false]; exact hsame id0 (r.selA id0 hid0)
+    · rw [agentEv_b_false]; exact r.lastB
     · rw [agentEv_b_false]; exact r.selB
     · intro x hx
       rw [agentEv_a_false]
-      exact selAddrs_keep hq hsame x (r.addrA x hx)
+      exact selAddrs_keep' hq hsame x (r.addrA x hx)
     · rw [agentEv_b_false]; exact r.addrB
   | true =>
     have hpB := session_postB hsess
@@ -137,92 +139,74 @@ theorem rest_agentEv {nat : List (Nat × Nat)} {sa sb : Option Nat} {xa xb : Opt
             rw [hp] at hacc
             obtain ⟨_, _, hn⟩ := acceptAt_inbound hacc
             rw [valFree_nom hd.2 hp] at hn; cases hn
-    have hplain : plainNomReq ev = false := by
-      rcases hadm with hni | ⟨d, hd, rfl⟩
-      · exact plainNomReq_not_inbound hni
-      · unfold evOf
-        cases hp : d.p with
-        | data n => rfl
-        | stun m =>
-          simp only [plainNomReq]
-          obtain ⟨_, h2⟩ := hd.1 m hp
-          cases hc : m.cls == 0 with
-          | false => rfl
-          | true =>
-            cases hu : m.useCand with
-            | false => rfl
-            | true =>
-              have := h2 (by simpa using hc) hu
-              rw [valFree_nom hd.2 hp] at this; cases this
-    obtain ⟨hA, _, hC⟩ := step_frame_cld s.b ev r.q.invB hs2 (rests_keeps hk) hs6 hp3 hp4 hs9 hplain
+    obtain ⟨hA, _, hC⟩ := step_frame_cld s.b ev r.q.invB hs2 (rests_keeps hk) hs6 hp3 hp4 hs9
     have hl := last_of_no_accept hnr hat
-    -- B's selection does not move, and no mark waits
-    have hB : ∃ ex, NomQ ex none s.b (step s.b ev).1 ∧ (step s.b ev).1.selected = s.b.selected ∧
-        (∀ p' ∈ (step s.b ev).1.checklist, p'.nomOnSuccess = true → p'.state = .succeeded) := by
+    -- once a value has been accepted, an existing selection of B does not move; deferred values are old ones
+    have hB : ∃ ex, NomQ ex none s.b (step s.b ev).1 ∧
+        (s.b.lastNomination.isSome = true → ∀ id0, s.b.selected = some id0 → (step s.b ev).1.selected = some id0) ∧
+        (∀ p' ∈ (step s.b ev).1.checklist,
+          p'.deferredNom = none ∨ ∃ p ∈ s.b.checklist, p'.deferredNom = p.deferredNom) := by
+      have hother : ∀ {ex : Option Nat}, NomQ ex none s.b (step s.b ev).1 → ∀ p' ∈ (step s.b ev).1.checklist,
+          some p'.id ≠ ex → p'.deferredNom = none ∨ ∃ p ∈ s.b.checklist, p'.deferredNom = p.deferredNom := by
+        intro ex hq p' hp' hne
+        rcases hq.pairs p' hp' hne with ⟨p, hp, _, hnk⟩ | ⟨_, hnk⟩
+        · exact Or.inr ⟨p, hp, (nk_parts hnk).2.2⟩
+        · exact Or.inl (nk_def hnk)
       cases hao : answerOf s.b ev with
       | none =>
-        have hq := hC hao hat
-        refine ⟨none, hq, ?_, ?_⟩
-        · rcases hq.sel with h1 | ⟨_, h1⟩
-          · exact h1
+        rcases hC hao hat with hq | ⟨_, id, _, hq, hsel, hmk⟩
+        · refine ⟨none, hq, ?_, fun p' hp' => hother hq p' hp' (by simp)⟩
+          intro _ id0 hid0
+          rcases hq.sel with h1 | ⟨_, h1⟩
+          · exact h1.trans hid0
           · cases h1
-        · intro p' hp' hn
-          rcases hq.pairs p' hp' (by simp) with ⟨p, hp, _, hnk⟩ | ⟨_, hnk⟩
-          · obtain ⟨h1, h2, _⟩ := nk_parts hnk
-            have := q3 p hp (h2 ▸ hn)
-            rw [this] at h1
-            simpa using h1
-          · unfold nk at hnk
-            simp only [Prod.mk.injEq] at hnk
-            rw [hnk.2.1] at hn; cases hn
+        · refine ⟨some id, hq, ?_, ?_⟩
+          · intro hls id0 hid0
+            rcases hsel with h1 | ⟨_, h1 | h1⟩
+            · exact h1.trans hid0
+            · rw [hid0] at h1; cases h1
+            · rw [h1] at hls; cases hls
+          · intro p' hp'
+            by_cases hid : p'.id = id
+            · rcases hmk p' hp' hid with ⟨p, hp, _, h1 | h1⟩ | ⟨_, h1 | h1⟩
+              · exact Or.inr ⟨p, hp, (nk_parts h1).2.2⟩
+              · exact Or.inr ⟨p, hp, nk_def h1⟩
+              · exact Or.inl (nk_def h1)
+              · exact Or.inl (nk_def h1)
+            · exact hother hq p' hp' (by simpa using hid)
       | some y =>
         obtain ⟨pd, id⟩ := y
-        obtain ⟨p, hp, hpid, hq, hex, hsel0, hselv⟩ := hA pd id hao
+        obtain ⟨p, hp, hpid, hq, hex, hsel0, hselv, hselp⟩ := hA pd id hao
         refine ⟨some id, hq, ?_, ?_⟩
-        · cases hn : p.nomOnSuccess with
-          | false => exact hsel0 hn
+        · intro hls id0 hid0
+          cases hn : p.nomOnSuccess with
+          | false => exact (hsel0 hn).trans hid0
           | true =>
-            obtain ⟨v', hv'⟩ := Option.isSome_iff_exists.mp ((r.q.defB p hp).1 hn)
-            obtain ⟨last, hl1, hl2⟩ := (r.q.defB p hp).2 v' hv'
-            rw [hselv v' hn hv', hl1]
-            simp only []
-            split
-            · rfl
-            · -- the mark carries the highest accepted value: its pair is the selected pair
-              have hvl : v' = last := by omega
-              subst hvl
-              have hlb := r.q.lastB
-              rw [hl1] at hlb
-              cases hacc : h.accepted with
-              | none => rw [hacc] at hlb; cases hlb
-              | some z =>
-                obtain ⟨v, lb, rb⟩ := z
-                rw [hacc] at hlb
-                simp only [Option.map_some, Option.some.injEq] at hlb
-                subst hlb
-                obtain ⟨_, id0, _, hJ, huniq⟩ := r.q.accB v' lb rb hacc
-                have hid0 : id0 = id := (huniq p hp hv').symm.trans hpid
-                subst hid0
-                rcases hJ with hsel | ⟨q0, hq0, hq0id, hq0nk⟩
-                · exact hsel.symm
-                · have hpq : q0 = p := ids_unique r.q.invB hq0 hp (hq0id.trans hpid.symm)
-                  subst hpq
-                  unfold nk at hq0nk
-                  simp only [Prod.mk.injEq, beq_eq_false_iff_ne, ne_eq] at hq0nk
-                  exact absurd (q3 q0 hq0 hn) hq0nk.1
-        · intro p' hp' hn
+            cases hd : p.deferredNom with
+            | none =>
+              rcases hselp hn hd with h1 | ⟨_, h1 | h1⟩
+              · exact h1.trans hid0
+              · rw [hid0] at h1; cases h1
+              · rw [h1] at hls; cases hls
+            | some v' =>
+              obtain ⟨last, hl1, hl2⟩ := r.q.defB p hp v' hd
+              rw [hselv v' hn hd, hl1]
+              simp only []
+              split
+              · exact hid0
+              · -- the mark carries the highest accepted value: excluded in a quiesced state
+                have hvl : v' = last := by omega
+                subst hvl
+                exact absurd (hd.trans hl1.symm) (q3 p hp (by rw [hd]; rfl))
+        · intro p' hp'
           by_cases hid : p'.id = id
-          · exact (hex p' hp' hid).1
-          · rcases hq.pairs p' hp' (by simpa using hid) with ⟨p1, hp1, _, hnk⟩ | ⟨_, hnk⟩
-            · obtain ⟨h1, h2, _⟩ := nk_parts hnk
-              have := q3 p1 hp1 (h2 ▸ hn)
-              rw [this] at h1
-              simpa using h1
-            · unfold nk at hnk
-              simp only [Prod.mk.injEq] at hnk
-              rw [hnk.2.1] at hn; cases hn
+          · cases hn : p.nomOnSuccess with
+            | true => exact Or.inl ((hex p' hp' hid).2.1 hn).2
+            | false => exact Or.inr ⟨p, hp, ((hex p' hp' hid).2.2 hn).2⟩
+          · exact hother hq p' hp' (by simpa using hid)
     obtain ⟨ex, hq, hsame, hmarks⟩ := hB
-    refine ⟨q', ⟨?_, ?_, ?_⟩, ?_, ?_, ?_, ?_⟩
+    have hlb : lb.isSome = true → s.b.lastNomination.isSome = true := fun h => by rw [r.lastB]; exact h
+    refine ⟨q', ⟨?_, ?_, ?_⟩, ?_, ?_, ?_, ?_, ?_⟩
     · intro d hd
       rw [agentEv_inflight_true] at hd
       rcases List.mem_append.mp hd with hd | hd
@@ -239,16 +223,24 @@ theorem rest_agentEv {nat : List (Nat × Nat)} {sa sb : Option Nat} {xa xb : Opt
             have := issueOf_controlling h4
             rw [hs6] at this; cases this
     · rw [agentEv_a_true]; exact q2
-    · rw [agentEv_b_true]; exact hmarks
+    · rw [agentEv_b_true, hl]
+      intro p' hp' hsome
+      rcases hmarks p' hp' with h1 | ⟨p, hp, h1⟩
+      · rw [h1] at hsome; cases hsome
+      · rw [h1] at hsome ⊢
+        exact q3 p hp hsome
     · rw [agentEv_a_true]; exact r.selA
-    · rw [agentEv_b_true, hsame]; exact r.selB
-    · rw [agentEv_a_true]; exact r.addrA
-    · intro x hx
+    · rw [agentEv_b_true, hl]; exact r.lastB
+    · intro hls id0 hid0
       rw [agentEv_b_true]
-      exact selAddrs_keep hq hsame x (r.addrB x hx)
+      exact hsame (hlb hls) id0 (r.selB hls id0 hid0)
+    · rw [agentEv_a_true]; exact r.addrA
+    · intro hls x hx
+      rw [agentEv_b_true]
+      exact selAddrs_keep' hq (hsame (hlb hls)) x (r.addrB hls x hx)
 
-theorem rest_sched (nat : List (Nat × Nat)) (sa sb : Option Nat) (xa xb : Option (Nat × Nat)) :
-    SchedOK rests (RestInv nat sa sb xa xb) (fun h _ d => DgramOK h d ∧ valFree d = true) where
+theorem rest_sched (nat : List (Nat × Nat)) (sa sb lb : Option Nat) (xa xb : Option (Nat × Nat)) :
+    SchedOK rests (RestInv nat sa sb lb xa xb) (fun h _ d => DgramOK h d ∧ valFree d = true) where
   hub := fun _ h => rests_of_not_api h
   sess := fun _ _ r => r.q.sess
   dgram := fun _ _ r d hd => ⟨r.q.fl d hd, r.quiet.1 d hd⟩
@@ -257,22 +249,27 @@ theorem rest_sched (nat : List (Nat × Nat)) (sa sb : Option Nat) (xa xb : Optio
   agent := fun _ _ X ev r hk hadm hs hz => rest_agentEv r X ev hk hadm hs hz
 
 /-- **A quiesced exchange rests.**  From a quiesced state of an exchange, along every continuation `ex2` in which A
-does not call `RenominateCandidate` (no Restart / Close, every state a `Session`): the state stays quiesced and both
-selections — pair ids and addresses — stay what they were. -/
+does not call `RenominateCandidate` (no Restart / Close, every state a `Session`): the state stays quiesced; a pair A
+has selected stays selected; B's highest accepted value stays, and once B has accepted a value, a pair B has selected
+stays selected.  (Where nothing is selected yet, or B has accepted no value, an ordinary nomination may still select.) -/
 theorem quiesced_rests {s0 : Sys} (hf : Fresh s0) (pre ex ex2 : List SysEv) (he : Established (Sys.runs s0 pre))
     (hex : Exchange (Sys.runs s0 pre) ex) (hz : PositiveValues (hist (Sys.runs s0 pre) ex).issued)
     (hq : Quiesced (Sys.runs (Sys.runs s0 pre) ex))
     (hex2 : ExchangeK rests (Sys.runs (Sys.runs s0 pre) ex) ex2) :
     Quiesced (Sys.runs (Sys.runs (Sys.runs s0 pre) ex) ex2) ∧
-    (Sys.runs (Sys.runs (Sys.runs s0 pre) ex) ex2).a.selected = (Sys.runs (Sys.runs s0 pre) ex).a.selected ∧
-    (Sys.runs (Sys.runs (Sys.runs s0 pre) ex) ex2).b.selected = (Sys.runs (Sys.runs s0 pre) ex).b.selected ∧
+    (∀ id, (Sys.runs (Sys.runs s0 pre) ex).a.selected = some id →
+      (Sys.runs (Sys.runs (Sys.runs s0 pre) ex) ex2).a.selected = some id) ∧
     (∀ x, selAddrs (Sys.runs (Sys.runs s0 pre) ex).a = some x →
       selAddrs (Sys.runs (Sys.runs (Sys.runs s0 pre) ex) ex2).a = some x) ∧
-    (∀ x, selAddrs (Sys.runs (Sys.runs s0 pre) ex).b = some x →
-      selAddrs (Sys.runs (Sys.runs (Sys.runs s0 pre) ex) ex2).b = some x) := by
+    (Sys.runs (Sys.runs (Sys.runs s0 pre) ex) ex2).b.lastNomination = (Sys.runs (Sys.runs s0 pre) ex).b.lastNomination ∧
+    ((Sys.runs (Sys.runs s0 pre) ex).b.lastNomination.isSome = true →
+      (∀ id, (Sys.runs (Sys.runs s0 pre) ex).b.selected = some id →
+        (Sys.runs (Sys.runs (Sys.runs s0 pre) ex) ex2).b.selected = some id) ∧
+      (∀ x, selAddrs (Sys.runs (Sys.runs s0 pre) ex).b = some x →
+        selAddrs (Sys.runs (Sys.runs (Sys.runs s0 pre) ex) ex2).b = some x)) := by
   have q := exchange_qinv hf pre ex he hex hz
-  have r0 : RestInv s0.nat _ _ _ _ (hist (Sys.runs s0 pre) ex) (Sys.runs (Sys.runs s0 pre) ex) :=
-    ⟨q, hq, rfl, rfl, fun _ h => h, fun _ h => h⟩
+  have r0 : RestInv s0.nat _ _ _ _ _ (hist (Sys.runs s0 pre) ex) (Sys.runs (Sys.runs s0 pre) ex) :=
+    ⟨q, hq, fun _ h => h, rfl, fun _ _ h => h, fun _ h => h, fun _ _ h => h⟩
   have hz2 : ∀ x ∈ (histFrom (hist (Sys.runs s0 pre) ex) (Sys.runs (Sys.runs s0 pre) ex) ex2).issued, 0 < x.1 := by
     -- nothing is issued along `ex2`
     have key : ∀ (h : Hist) (s : Sys) (es : List SysEv), (∀ e ∈ es, sysK rests e = true) →
@@ -351,7 +348,7 @@ theorem quiesced_rests {s0 : Sys} (hf : Fresh s0) (pre ex ex2 : List SysEv) (he 
           | true => rw [hstepB_issued]
     rw [key _ _ _ hex2.1]
     exact hz
-  have r := sched_runs (rest_sched s0.nat _ _ _ _) r0 ex2 hex2 hz2
-  exact ⟨r.quiet, r.selA, r.selB, r.addrA, r.addrB⟩
+  have r := sched_runs (rest_sched s0.nat _ _ _ _ _) r0 ex2 hex2 hz2
+  exact ⟨r.quiet, r.selA, r.addrA, r.lastB, fun hls => ⟨r.selB hls, r.addrB hls⟩⟩
 
 end IceProofs.C20S
